@@ -343,6 +343,17 @@ Theorem C15_gen_first_grids : forall marge sf dmin dmax H W n wr lvls,
      else mc_alloc_right (gen_first_mcp n sf dmin dmax wr) = None).
 Proof. exact (gen_first_grids ms_invalid_bits). Qed.
 
+(* ... and the grids of every finer level of that model are next_grids applied to the very bounds the generated
+   run_multiscale hands to disparity_range at its (i+1)-th execution (so C15_finer_interval and
+   C15_finer_interval_as_computed speak about the user interval the code computes) *)
+Theorem C15_gen_finer_grids_user : forall marge sf dmin dmax H W n wr lvls i l,
+  nth_error lvls i = Some l ->
+  exists u gr, ms_range_left (gen_msc_iter sf true (S i) (gen_after_prepare n sf dmin dmax)) = Some u /\
+    nth_error (run_grids ms_invalid_bits marge sf dmin dmax H W n wr lvls) (S i)
+    = Some (GMap (next_grids ms_invalid_bits (lv_ws l) marge sf (fst (lv_left l)) (snd (lv_left l)) (fst u) (snd u)
+                             (fst (lv_zoom l)) (snd (lv_zoom l))), gr).
+Proof. exact (gen_finer_grids_user ms_invalid_bits). Qed.
+
 (* C15_coarsest_interval on the generated functions: the pyramid has n levels of factor sf, the first
    execution is at scale n - 1 and its cost volumes are allocated on the user interval / sf^(n-1) -- the code
    divides by sf^n in run_prepare and multiplies by sf in matching_cost_prepare --, mirrored for the right one *)
@@ -435,6 +446,7 @@ Print Assumptions C15_gen_matching_cost_prepare_is_model.
 Print Assumptions C15_gen_run_multiscale_is_model.
 Print Assumptions C15_gen_disparity_range_is_model.
 Print Assumptions C15_gen_first_grids.
+Print Assumptions C15_gen_finer_grids_user.
 Print Assumptions C15_gen_coarsest_interval.
 Print Assumptions C15_gen_user_interval_at_level.
 Print Assumptions C15_gen_fallback_finding_class.
